@@ -2,6 +2,7 @@ package c16
 
 import (
 	"fmt"
+	"github.com/luthersystems/elps/formatter"
 	"os"
 	"strings"
 	"testing"
@@ -113,5 +114,22 @@ func TestForms(t *testing.T) {
 	fmt.Printf("%d histories over %d forms\n", n, len(forms))
 	for cl, c := range classes {
 		fmt.Printf("%7d %s\n        %s\n", c, cl, first[cl])
+	}
+}
+
+// TestStrip shows non-compact StripComments passes; a development aid.
+func TestStrip(t *testing.T) {
+	p := os.Getenv("C16_STRIP")
+	if p == "" {
+		t.Skip("no C16_STRIP")
+	}
+	for _, text := range strings.Split(p, "|||") {
+		text = strings.NewReplacer(`\n`, "\n").Replace(text)
+		c := formatter.DefaultConfig()
+		c.StripComments = true
+		o1, e1 := formatter.Format([]byte(text), c)
+		o2, e2 := formatter.Format(o1, c)
+		o3, e3 := formatter.Format(o2, c)
+		fmt.Printf("%q\n  1: %q %v\n  2: %q %v\n  3: %q %v\n", text, o1, e1, o2, e2, o3, e3)
 	}
 }
